@@ -213,7 +213,8 @@ impl Scenario for CoreScenario {
                     if let Err(e) = check_tables(&snap, &next) {
                         return Some(StepOut { fingerprint: 0, verdict: Verdict::Violation(format!("after {op:?}: {e}")), class });
                     }
-                    let fp = hash_str(&format!("{}|{:?}", snap, next.ls_last));
+                    let zombies: Vec<SubKey> = next.subs.iter().filter(|s| s.zombie).map(|s| s.id).chain(next.ls_subs.iter().filter(|s| s.zombie).map(|s| s.id)).collect();
+                    let fp = hash_str(&format!("{}|{:?}|{:?}", snap, next.ls_last, zombies));
                     model = next;
                     let _ = &model;
                     return Some(StepOut {
@@ -252,21 +253,32 @@ pub fn check_tables(snap: &Value, m: &RefCore) -> Result<(), String> {
     // registered subscribers in the routing trees
     let mut have = BTreeSet::new();
     collect_subscribers(&snap["subscribers"], &mut have);
+    // (a subscriber whose receiver is gone may or may not have been dropped from the tree yet)
     let mut want = BTreeSet::new();
+    let mut maybe = BTreeSet::new();
     for s in &m.subs {
-        want.insert(format!("{}#{}", cid(s.id.0), s.id.1));
+        if s.zombie {
+            maybe.insert(format!("{}#{}", cid(s.id.0), s.id.1));
+        } else {
+            want.insert(format!("{}#{}", cid(s.id.0), s.id.1));
+        }
     }
-    if want != have {
-        return Err(format!("subscriber routing tree: impl={have:?} reference={want:?}"));
+    if !want.is_subset(&have) || !have.iter().all(|h| want.contains(h) || maybe.contains(h)) {
+        return Err(format!("subscriber routing tree: impl={have:?} reference={want:?} (+ possibly {maybe:?})"));
     }
     let mut have = BTreeSet::new();
     collect_ls_subscribers(&snap["store"]["ls_subscribers"], &mut have);
     let mut want = BTreeSet::new();
+    let mut maybe = BTreeSet::new();
     for s in &m.ls_subs {
-        want.insert(format!("{}#{}", cid(s.id.0), s.id.1));
+        if s.zombie {
+            maybe.insert(format!("{}#{}", cid(s.id.0), s.id.1));
+        } else {
+            want.insert(format!("{}#{}", cid(s.id.0), s.id.1));
+        }
     }
-    if want != have {
-        return Err(format!("ls subscriber tree: impl={have:?} reference={want:?}"));
+    if !want.is_subset(&have) || !have.iter().all(|h| want.contains(h) || maybe.contains(h)) {
+        return Err(format!("ls subscriber tree: impl={have:?} reference={want:?} (+ possibly {maybe:?})"));
     }
     // publish streams
     let mut want = BTreeSet::new();
